@@ -41,6 +41,8 @@ class Gen:
         self.stub = set()
         self.dropped = []
         self.pins = []
+        self.uncontracted = []  # extracted functions this framework has no contract for (helpers added by a change)
+        self.texts = {}
 
     def emit(self, mod, text):
         if mod not in self.mods:
@@ -49,6 +51,7 @@ class Gen:
         self.mods[mod].append(text)
 
     def rec(self, sl, oid, mod, kind='fn', dropped=None):
+        self.texts[oid] = sl.verbatim
         r = sl.record()
         r.update({'id': oid, 'module': mod, 'kind': kind})
         if dropped:
@@ -67,6 +70,11 @@ class Gen:
             self.stubbed.append(oid)
             self.rec(sl, oid, mod, kind, dropped='BODY NOT VERIFIED (stubbed as external_body)')
             return text
+        if oid in getattr(self, 'nohints', ()):
+            # an annotation of this function no longer type checks against the code (renamed local, changed shape): keep the
+            # contract, drop every in-body annotation; a failure of its proof is then a soft failure
+            kw = {k: v for k, v in kw.items() if k in ('ret', 'contract')}
+            self.lost_hints.append('%s: all in-body annotations dropped (they no longer fit the code)' % oid)
         try:
             text, lost = inject(sl, make_pub=make_pub, **kw)
         except AnchorLost as e:
@@ -124,6 +132,7 @@ class Gen:
                 # a function this framework has no contract for (e.g. a helper added by a change): verified as is,
                 # callers see no postcondition
                 kw = {}
+                self.uncontracted.append(prefix + '::' + n)
                 self.dropped.append('%s::%s has no contract (verified for panics/overflow only)' % (prefix, n))
             out.append(self.inj(sl, prefix + '::' + n, mod, kw, make_pub=True))
         for n in table:
@@ -137,9 +146,10 @@ def derive_list(sl):
     return [x.strip() for x in m.group(1).split(',')] if m else []
 
 
-def build(repo, outdir, stub=()):
+def build(repo, outdir, stub=(), nohints=()):
     g = Gen(repo)
     g.stub = set(stub)
+    g.nohints = set(nohints)
     LIB, RNG = g.lib, g.rng
     os.makedirs(outdir, exist_ok=True)
 
@@ -352,6 +362,9 @@ impl OrdSpecImpl for Version { open spec fn obeys_cmp_spec() -> bool { true } op
             g.rec(sl, name, 'm_desugar', 'closure', dropped='BODY NOT VERIFIED (stubbed as external_body)')
             return '#[verifier::external_body]\npub fn ' + name + sig + '\n' + '\n'.join(grid) + '\n{ unimplemented!() }\n'
         g.rec(sl, name, 'm_desugar', 'closure', dropped='winnow combinator call around the closure (Parser::map / context / parse_next)')
+        if name in g.nohints:
+            g.lost_hints.append('%s: all in-body annotations dropped (they no longer fit the code)' % name)
+            hint = '{\n'
         return 'pub fn ' + name + sig + '\n' + '\n'.join(grid) + '\n' + hint + head + sl.text + tail + '\n}\n'
     g.unit('caret_desugar', lambda: g.emit('m_desugar', lifted('caret_desugar', '(parsed: Partial) -> (r: Option<BoundSet>)', K.grid_caret(), closure_match(RNG, 'caret', '|parsed| match parsed', 'closure in caret()'))))
     g.unit('partial_desugar', lambda: g.emit('m_desugar', lifted('partial_desugar', '(partial: Partial) -> (r: Option<BoundSet>)', K.grid_partial(), closure_match(RNG, 'partial', '|partial| match partial', 'closure in partial()'))))
@@ -395,12 +408,40 @@ impl OrdSpecImpl for Version { open spec fn obeys_cmp_spec() -> bool { true } op
         if m:
             clauses[i] = m.group(1)
     trusted = scan_trusted(text)
+    # which extracted functions call a helper that has no contract (their own proof may then fail for lack of one)
+    calls = {}
+    callgraph = {}
+    short = {}
+    for oid in g.texts:
+        nm = re.split(r'::|@', oid.split('@')[0])[-1]
+        if oid.startswith('primitive_desugar_') or oid.endswith('_desugar'):
+            continue    # lifted closures are not called by name
+        short.setdefault(nm, []).append(oid)
+    for oid, t in g.texts.items():
+        hit = [u for u in g.uncontracted if u != oid and re.search(r'\b' + re.escape(u.split('::')[-1]) + r'\s*\(', t)]
+        if hit:
+            calls[oid] = hit
+        cg = set()
+        for nm, oids in short.items():
+            if re.search(r'\b' + re.escape(nm) + r'\s*(::<[^>]*>)?\(', t):
+                cg.update(o for o in oids if o != oid)
+        # operators and conversions that dispatch to extracted impls
+        if re.search(r'[^=!<>]=[=]|!=', t):
+            cg.update(o for o in g.texts if o.endswith('::eq'))
+        if re.search(r'<=|>=|[^-=]>[^=>]|[^<]<[^=<]', t) or 'max(' in t or 'min(' in t:
+            cg.update(o for o in g.texts if o.endswith('::cmp') or o.endswith('::partial_cmp'))
+        if '.into()' in t or 'Version::from(' in t or '::from(' in t:
+            cg.update(o for o in g.texts if o.startswith('Version::from') or o.startswith('From<'))
+        callgraph[oid] = sorted(cg - {oid})
     meta = {
         'file': path,
         'functions': g.functions,
         'clauses': clauses,
         'lost_hints': g.lost_hints,
         'lost_items': g.lost_items,
+        'uncontracted': g.uncontracted,
+        'calls_uncontracted': calls,
+        'callgraph': callgraph,
         'stubbed': g.stubbed,
         'dropped': g.dropped,
         'pins': g.pins,
